@@ -82,6 +82,13 @@ Definition scan_flag (s : chars) : option (dec * chars) :=
   | [] => None
   end.
 
+(* what a printed number may consist of so that the printed path splits back into its tokens: no separator,
+   no white space, no command letter; and a lexeme the scanners read back completely *)
+Definition tok_char (c : ascii) : bool := negb (is_sep c) && negb (is_pyspace c) && negb (is_cmd_letter c).
+Definition lexeme_ok (flag : bool) (t : chars) : bool :=
+  match t with [] => false | _ => true end && forallb tok_char t &&
+  match (if flag then scan_flag t else scan_float_re t) with Some (_, []) => true | _ => false end.
+
 (* the while loop of _parse_args; i counts yielded arguments *)
 Fixpoint parse_args_loop (fuel : nat) (arc : bool) (i : nat) (pieces : list chars) : option (list dec) :=
   match fuel with
